@@ -32,6 +32,10 @@ pub struct Shared {
     pub tolerate: bool,
     pub failed: Mutex<Vec<WriteRec>>,
     pub acked: Mutex<Vec<WriteRec>>,
+    /// keyspace handles obtained by a thread itself (Database::keyspace while others do the same)
+    pub dyn_ks: Mutex<BTreeMap<(usize, u8), Keyspace>>,
+    pub created: Mutex<std::collections::BTreeSet<u8>>,
+    pub deleted: Mutex<std::collections::BTreeSet<u8>>,
 }
 
 /// A write op of a fault run: who, when (stamps and scheduler steps), what it writes
@@ -47,6 +51,28 @@ pub struct WriteRec {
 }
 
 impl Shared {
+    /// the handle thread `tid` uses for keyspace `ks`: its own one if it opened the name itself
+    fn handle(&self, tid: usize, ks: KsIdx) -> Option<Keyspace> {
+        if let Some(k) = self.dyn_ks.lock().unwrap().get(&(tid, ks)) {
+            return Some(k.clone());
+        }
+        self.ks.get(ks as usize).and_then(|k| k.clone())
+    }
+    /// every keyspace index somebody holds a handle for, with one handle (thread 0's first)
+    fn all_handles(&self) -> Vec<(u8, Keyspace)> {
+        let mut out: BTreeMap<u8, Keyspace> = BTreeMap::new();
+        for (i, k) in self.ks.iter().enumerate() {
+            if let Some(k) = k {
+                out.insert(i as u8, k.clone());
+            }
+        }
+        for ((t, i), k) in self.dyn_ks.lock().unwrap().iter() {
+            if *t == 0 {
+                out.insert(*i, k.clone());
+            }
+        }
+        out.into_iter().collect()
+    }
     fn stamp(&self) -> u64 {
         self.stamp.fetch_add(1, Ordering::SeqCst)
     }
@@ -124,7 +150,7 @@ fn client_op(sh: &Shared, tid: usize, op: &Op, views: &mut BTreeMap<u8, ViewAcc>
     let label = format!("t{tid}:{op:?}");
     macro_rules! ks {
         ($i:expr) => {
-            match sh.ks.get($i as usize).and_then(|k| k.as_ref()) {
+            &match sh.handle(tid, $i) {
                 Some(k) => k,
                 None => return,
             }
@@ -156,7 +182,8 @@ fn client_op(sh: &Shared, tid: usize, op: &Op, views: &mut BTreeMap<u8, ViewAcc>
             }
             let mut ws = vec![];
             for it in items {
-                let Some(k) = sh.ks.get(it.ks as usize).and_then(|k| k.as_ref()) else { continue };
+                let Some(k) = sh.handle(tid, it.ks) else { continue };
+                let k = &k;
                 match &it.kind {
                     BKind::Put(v) => {
                         b.insert(k, &keys[it.key as usize], v.bytes());
@@ -542,6 +569,37 @@ fn client_op(sh: &Shared, tid: usize, op: &Op, views: &mut BTreeMap<u8, ViewAcc>
                 Err(e) => sh.fail("unexpected-error", format!("{label} failed: {e:?}")),
             }
         }
+        Op::CreateKs { ks } | Op::OpenKsWith { ks, .. } => {
+            // open-or-create by name, possibly while other threads do the same (with the
+            // configured options, or with this caller's own)
+            let name = sh.cfg.names[*ks as usize].clone();
+            let o = match op {
+                Op::OpenKsWith { opts, .. } => opts.clone(),
+                _ => sh.cfg.opts[*ks as usize].clone(),
+            };
+            match sh.db.keyspace(&name, move || crate::inst::make_opts(&o)) {
+                Ok(k) => {
+                    sh.dyn_ks.lock().unwrap().insert((tid, *ks), k);
+                    sh.created.lock().unwrap().insert(*ks);
+                    sh.deleted.lock().unwrap().remove(ks);
+                }
+                Err(e) => sh.fail("unexpected-error", format!("{label} failed: {e:?}")),
+            }
+        }
+        Op::DeleteKs { ks } => {
+            // only generated after the threads have finished (main program tail)
+            let Some(k) = sh.handle(tid, *ks) else { return };
+            match sh.db.delete_keyspace(k) {
+                Ok(()) => {
+                    sh.dyn_ks.lock().unwrap().retain(|(_, i), _| i != ks);
+                    sh.deleted.lock().unwrap().insert(*ks);
+                    if sh.db.keyspace_exists(&sh.cfg.names[*ks as usize]) {
+                        sh.fail("keyspace-deleted-still-exists", format!("{label}: the name still exists after delete_keyspace"));
+                    }
+                }
+                Err(e) => sh.fail("unexpected-error", format!("{label} failed: {e:?}")),
+            }
+        }
         _ => {}
     }
 }
@@ -574,11 +632,10 @@ fn obs_of(sh: &Shared, r: &ReadOp, res: &ReadResult) -> Result<LOp, String> {
 
 fn read_store(sh: &Shared) -> Result<Store, String> {
     let mut st = Store::new();
-    for (i, k) in sh.ks.iter().enumerate() {
-        let Some(k) = k else { continue };
+    for (i, k) in sh.all_handles() {
         for g in k.iter() {
             let (key, v) = g.into_inner().map_err(e2s)?;
-            st.insert((i as u8, key.to_vec()), v.to_vec());
+            st.insert((i, key.to_vec()), v.to_vec());
         }
     }
     Ok(st)
@@ -654,6 +711,9 @@ pub fn run_thr(case: &Case, dir: PathBuf) -> Outcome {
         tolerate: matches!(case.fault, Fault::Io { .. } | Fault::Power { .. }),
         failed: Mutex::new(vec![]),
         acked: Mutex::new(vec![]),
+        dyn_ks: Mutex::new(BTreeMap::new()),
+        created: Mutex::new(Default::default()),
+        deleted: Mutex::new(Default::default()),
     });
     drop(inst);
     let mut mviews = BTreeMap::new();
@@ -758,6 +818,35 @@ pub fn run_thr(case: &Case, dir: PathBuf) -> Outcome {
             stats.inc("io_fault_fired");
         }
     }
+    // every handle of one name denotes one keyspace with one set of options (C12 / C16)
+    let mut rows_at_end: BTreeMap<u8, Vec<(Vec<u8>, Vec<u8>)>> = BTreeMap::new();
+    {
+        let mut by_ks: BTreeMap<u8, Vec<(usize, Keyspace)>> = BTreeMap::new();
+        for (i, k) in sh.ks.iter().enumerate() {
+            if let Some(k) = k {
+                by_ks.entry(i as u8).or_default().push((0, k.clone()));
+            }
+        }
+        for ((t, i), k) in sh.dyn_ks.lock().unwrap().iter() {
+            by_ks.entry(*i).or_default().push((*t, k.clone()));
+        }
+        for (i, hs) in by_ks {
+            let Some((t0, first)) = hs.first() else { continue };
+            let rows0 = fjall::verif::keyspace_option_rows(first);
+            rows_at_end.insert(i, rows0.clone());
+            for (t, k) in &hs[1..] {
+                if k.id() != first.id() {
+                    sh.fail(
+                        "keyspace-identity",
+                        format!("threads t{t0} and t{t} both opened {:?} and hold different keyspaces (internal ids {} and {})", sh.cfg.names[i as usize], first.id(), k.id()),
+                    );
+                } else if fjall::verif::keyspace_option_rows(k) != rows0 {
+                    sh.fail("options-changed", format!("handles of t{t0} and t{t} for {:?} report different options", sh.cfg.names[i as usize]));
+                }
+            }
+            sh.stats.lock().unwrap().inc("handle_identity_checks");
+        }
+    }
     let poisoned_after_run = fjall::verif::is_poisoned(&sh.db);
     // rest of the main program, then the final content
     for op in case.program.iter().skip(split + 1) {
@@ -766,19 +855,17 @@ pub fn run_thr(case: &Case, dir: PathBuf) -> Outcome {
     let final_store = read_store(&sh);
     if let Ok(fs) = &final_store {
         let inv = sh.stamp();
-        for i in 0..sh.ks.len() {
-            if sh.ks[i].is_some() {
-                let items: Vec<(Vec<u8>, Vec<u8>)> = fs.iter().filter(|((k, _), _)| *k == i as u8).map(|((_, key), v)| (key.clone(), v.clone())).collect();
-                let ret = sh.stamp();
-                sh.push(0, inv, ret, LOp::ReadAll(i as u8, items), format!("final content of keyspace {i}"));
-            }
+        for (i, _) in sh.all_handles() {
+            let items: Vec<(Vec<u8>, Vec<u8>)> = fs.iter().filter(|((k, _), _)| *k == i).map(|((_, key), v)| (key.clone(), v.clone())).collect();
+            let ret = sh.stamp();
+            sh.push(0, inv, ret, LOp::ReadAll(i, items), format!("final content of keyspace {i}"));
         }
     }
     // final point reads: after every thread has finished, point reads must agree with the scans
     // (they are served by a different read path: first hit memtable -> sealed -> tables)
     if let Ok(fs) = &final_store {
-        for (i, k) in sh.ks.iter().enumerate() {
-            let Some(k) = k else { continue };
+        for (i, k) in sh.all_handles() {
+            let i = i as usize;
             for key in &sh.cfg.keys {
                 let inv = sh.stamp();
                 let got = k.get(key).map(|v| v.map(|x| x.to_vec()));
@@ -806,6 +893,7 @@ pub fn run_thr(case: &Case, dir: PathBuf) -> Outcome {
     if violation.is_none() {
         violation = sh.violation.lock().unwrap().clone();
     }
+    let final_names: Vec<u8> = sh.all_handles().into_iter().map(|(i, _)| i).collect();
     let events = sh.events.lock().unwrap().clone();
     let acked_w = sh.acked.lock().unwrap().clone();
     let failed_w = sh.failed.lock().unwrap().clone();
@@ -977,6 +1065,58 @@ pub fn run_thr(case: &Case, dir: PathBuf) -> Outcome {
                     violation = Some(Violation::new(clause, format!("{}{tag} || history: {}", r.explanation, hist.join(" | "))));
                 }
             }
+        }
+    }
+    // C12 (THR): after closing, the directory must hold exactly the names that existed at the
+    // end, each with the content every handle agreed on
+    if violation.is_none() && mon.is_none() && pmon.is_none() && (case.prop == "C12" || case.prop == "C16") {
+        if let Ok(fs) = &final_store {
+            stats.inc("reopen_after_thread_run");
+            match std::panic::catch_unwind(std::panic::AssertUnwindSafe(|| crate::faults::read_dir_state(&dir, &cfg))) {
+                Ok(Ok(maps)) => {
+                    let got: Vec<u8> = maps.keys().copied().collect();
+                    if got != final_names {
+                        let n = |v: &[u8]| v.iter().map(|i| cfg.names[*i as usize].clone()).collect::<Vec<_>>();
+                        violation = Some(Violation::new("close-reopen", format!("after reopen the keyspaces are {:?}, expected {:?}", n(&got), n(&final_names))));
+                    } else {
+                        for (i, m) in &maps {
+                            let want: BTreeMap<Vec<u8>, Vec<u8>> = fs.iter().filter(|((k, _), _)| k == i).map(|((_, key), v)| (key.clone(), v.clone())).collect();
+                            if *m != want {
+                                violation = Some(Violation::new(
+                                    "close-reopen",
+                                    format!("after reopen keyspace {:?} holds {} items but held {} before the close (content differs)", cfg.names[*i as usize], m.len(), want.len()),
+                                ));
+                                break;
+                            }
+                        }
+                    }
+                }
+                Ok(Err(e)) => violation = Some(Violation::new("close-reopen", format!("reopen after the thread run fails: {e}"))),
+                Err(_) => violation = Some(Violation::new("close-reopen", "reopen after the thread run panics".to_string())),
+            }
+        }
+    }
+    if violation.is_none() && mon.is_none() && pmon.is_none() && case.prop == "C16" {
+        // the options every handle reported are the ones in force after the reopen
+        let r = std::panic::catch_unwind(std::panic::AssertUnwindSafe(|| -> Result<Option<String>, String> {
+            let mut inst = Instance::open_with(&dir, &cfg, cfg.journal_lz4, 0)?;
+            for i in &final_names {
+                inst.open_ks(&cfg, *i as usize, &cfg.opts[*i as usize])?;
+                let rows = fjall::verif::keyspace_option_rows(inst.k(*i).unwrap());
+                if let Some(r0) = rows_at_end.get(i) {
+                    // the internal id is part of the row keys, so this also pins the identity
+                    if *r0 != rows {
+                        return Ok(Some(format!("keyspace {:?}: the option rows after reopen differ from the ones its handles reported before the close", cfg.names[*i as usize])));
+                    }
+                }
+            }
+            Ok(None)
+        }));
+        match r {
+            Ok(Ok(None)) => stats.inc("option_rows_checked_after_thread_run"),
+            Ok(Ok(Some(d))) => violation = Some(Violation::new("options-changed", d)),
+            Ok(Err(e)) => violation = Some(Violation::new("close-reopen", format!("reopen after the thread run fails: {e}"))),
+            Err(_) => violation = Some(Violation::new("close-reopen", "reopen after the thread run panics".to_string())),
         }
     }
     let mut o = Outcome::ok(stats, rec.hash);
